@@ -9,15 +9,20 @@ PY = "/venv/bin/python"
 
 # T1c (DESIGN 12.12): source functions translated whole from /repo on every run and PROVED equal to the model (Properties/CxxImp*.lean)
 T1C = {
-    "C01": "qc_sub_fragments, cut_fragments (with the source's own QC plugged in; frame: nothing else of the build state changes)",
-    "C02": "the eight Start/EndOverhangPremise methods, OverhangResolver.add_overhang_premise, OverhangResolver.make_fixes (shared OverlapResults as store indices)",
+    "C01": "qc_sub_fragments, cut_fragments (with the source's own QC plugged in), store_fragments_found and discard_overhanging_fragments (refinement through the aliasing invariant `Coherent`), add_missing_scaffolds_from_input (refinement), and — when Properties/C01ImpRemap.lean is registered — the whole of phase 1 (`remap_to_input_assembly`) as a composition of the translated kernels",
+    "C02": "the eight Start/EndOverhangPremise methods, OverhangResolver.add_overhang_premise, OverhangResolver.make_fixes, a whole resolver round (shared OverlapResults as store indices)",
     "C03": "FastaStream.write_scaffold",
-    "C05": "format_tpf (with the source's translation table as the model has it)",
+    "C04": "index_fasta_file (whole body with its two closures; = the model's indexer for the lines of every file; hence the SOURCE's indexer returns the faidx quintuples and the tiling assembly)",
+    "C05": "format_tpf, parse_agp, parse_tpf (+ the round trips of the SOURCE's writer and parser)",
     "C06": "format_agp (+ validity of what the SOURCE writes)",
-    "C07": "Scaffold.append_scaffold, BuildAssembly.input_predecessor, BuildAssembly.gaps_before_leftover (and their composition)",
+    "C07": "Scaffold.append_scaffold, BuildAssembly.input_predecessor, BuildAssembly.gaps_before_leftover, and — when Properties/C07ImpFuse.lean is registered — scaffolds_fused_by_name",
+    "C09": "ScaffoldNamer.{get_set_haplotype, haplotig_name, unloc_name, haplotype_from_first_row_name, make_scaffold_name, label_scaffold, rename_by_size} (refinement through `absNamer`), name_assemblies and merge_assemblies",
+    "C11": "AssemblyStats.make_stats (counts unconditionally, per-assembly records for distinct keys), Assembly.fragment_junction_set",
     "C12": "IndexedAssembly.find_overlaps (whole body: the SOURCE's lookup = the brute-force scan), IndexedAssembly.add_scaffold",
     "C13": "FastaIndex.get_gap_iter / fwd_chunks / rev_chunks / get_info / get_sequence_iter, reverse_complement, revcomp_bytes_io; write_scaffold WITH the source's own iterators writes the model's bytes",
     "C14": "OverlapResult.to_scaffold, Fragment.reverse",
+    "C15": "FastaIndex.check_for_index_files (file system as oracles: accepts exactly when both cache files exist and are strictly newer)",
+    "C16": "get_output_filehandle (opens once, with the model's mode; exit status 1 exactly when the model's openOutput fails)",
     "C17": "Scaffold.fragment_tags, Scaffold.length, Scaffold.fragments_length",
     "C18": "discard_start, discard_end, overhang_if_start_removed, overhang_if_end_removed, trim_large_overhangs, fragment_start_if_trimmed, trim_fragment",
     "C19": "Assembly.all_vs_all_fragments with find_overlapping_fragments' callback inlined (the SOURCE's scan satisfies the C19 specification)",
